@@ -125,13 +125,47 @@ where
             },
             Call::Rebuild => {
                 let keep = b.clone();
-                match crate::obs::guard("build() then into_builder()", || b.build().map(|p| p.into_builder())) {
+                match crate::obs::guard("build() then into_builder()", || {
+                    b.build().map(|p| {
+                        // observe the value the way users do before taking it apart again
+                        use std::hash::{Hash, Hasher};
+                        let mut h = std::collections::hash_map::DefaultHasher::new();
+                        p.qualifiers().hash(&mut h);
+                        let q = p.clone();
+                        let _ = (p.to_string().len(), format!("{:?}", p.qualifiers()).len(), h.finish(), q.qualifiers() == p.qualifiers());
+                        p.into_builder()
+                    })
+                }) {
                     Out::Ok(Ok(nb)) => Out::Ok(nb),
                     Out::Ok(Err(_)) => Out::Ok(keep),
                     Out::Err(e) => Out::Err(e),
                     Out::Panic(p) => Out::Panic(p),
                 }
             },
+            Call::PartsQualIndexMut(k, v) => guard("IndexMut", || {
+                if b.parts.qualifiers.contains_key(k.as_str()) {
+                    b.parts.qualifiers[k.as_str()] = SmallString::from(v.as_str());
+                }
+                b
+            }),
+            Call::PartsQualGetMut(k, v) => guard("get_mut", || {
+                if let Some(x) = b.parts.qualifiers.get_mut(k.as_str()) {
+                    *x = SmallString::from(v.as_str());
+                }
+                b
+            }),
+            Call::PartsQualIterMutAppend(sfx) => guard("iter_mut", || {
+                for (_, x) in b.parts.qualifiers.iter_mut() {
+                    x.push_str(sfx);
+                }
+                b
+            }),
+            Call::PartsQualEntry(k, v) => guard("entry", || {
+                if let Ok(e) = b.parts.qualifiers.entry(k.as_str()) {
+                    e.and_modify(|x| x.push_str(v)).or_insert(v.as_str());
+                }
+                b
+            }),
             Call::PartsQualsFromIter(pairs) => guard("Qualifiers::try_from_iter", || {
                 if let Ok(q) = purl::Qualifiers::try_from_iter(pairs.iter().map(|(k, v)| (k.as_str(), v.as_str()))) {
                     b.parts.qualifiers = q;
